@@ -92,7 +92,7 @@ namespace c16
     Poly<dim> U = random_poly<dim>(c.rng, int(c.rng.range(0, p)), true), V = random_poly<dim>(c.rng, int(c.rng.range(0, p)), true);
     const int q = int(c.rng.range(0, 3));
     Poly<dim> F = random_poly<dim>(c.rng, q, true);
-    const int D = kind == 2 ? q + p : 2 * p;
+    const int D = std::max(q + p, 2 * p); // the boundary force functional is checked in every case, the matrix of kind 0/1 in addition
     int N = D + 1 + int(c.rng.below(3));
     if(std::is_same<FacetShape, Shape::Simplex<3>>::value && N == 7) N = 8;
     std::string cub_name = "auto-degree:" + std::to_string(N);
@@ -107,8 +107,9 @@ namespace c16
     auto bint = [&](const std::function<LD(const LD*)>& g) { LD s = 0; for(auto& pt : bq) s += pt.w * g(pt.x); return s; };
     const LD B = bound_factor();
 
-    if(kind == 2)
     {
+      const std::string opf = "asm.trace_force_functional";
+      c.set_op(opf);
       PolyFunc<dim> func(F);
       Assembly::Common::ForceFunctional<PolyFunc<dim>> force(func);
       LAFEM::DenseVector<double, Index> b(space.get_num_dofs(), 0.0), sv(space.get_num_dofs(), 0.0);
@@ -120,8 +121,9 @@ namespace c16
       const LD ref = (LD)al * bint([&](const LD* x) { return F.value(x) * V.value(x); });
       c.event(2);
       if(!(std::fabs(val - ref) <= B * sc + tiny()))
-        c.viol(opn, "functional-value", vh::J().kv("vTb", val).kv("boundary_integral", ref).kv("diff", std::fabs(val - ref)).kv("bound", B * sc).str());
-      return;
+        c.viol(opf, "functional-value", vh::J().kv("vTb", val).kv("boundary_integral", ref).kv("diff", std::fabs(val - ref)).kv("bound", B * sc).str());
+      c.set_op(opn);
+      if(kind == 2) return;
     }
 
     Form f = kind == 0 ? form_identity<dim>() : form_laplace<dim>();
